@@ -62,3 +62,19 @@ def type_equiv(a, b):
     if oa is typing.Union and ob is typing.Union:
         return len(aa) == len(ab) and all(type_equiv(x, y) for x, y in zip(aa, ab))
     return oa == ob and len(aa) == len(ab) and all(type_equiv(x, y) for x, y in zip(aa, ab))
+
+
+# type-variable substitution: a homomorphism over type expressions that keeps union members IN ORDER (C11: the left-most
+# accepting member wins, so the order is observable) and removes duplicates
+def args_in_order(ty):
+    import typing
+    return list(typing.get_args(ty)) if typing.get_origin(ty) is typing.Union else [ty]
+
+
+SPEC("pane.util", "replace_typevars.bounded", bounded=True,
+     ensures=[(lambda ty, replacements, expect, result: type_equiv(result, expect), ["C17", "C11"], "substitution"),
+              (lambda ty, replacements, expect, result: len(args_in_order(result)) == len(args_in_order(expect))
+               and all(type_equiv(a, b) for a, b in zip(args_in_order(result), args_in_order(expect))),
+               ["C11", "C17"], "union-order")],
+     no_raise=["C17"],
+     note="bounded: a table of type expressions (nested generics, unions with overlapping members, tuples, callables)")
